@@ -169,7 +169,7 @@ PROPS = {
     'C06': dict(
         theorem_files=['C06', 'C06l', 'GoTypes', 'Snap'],
         parts=[dict(harness='C06', judge='C06', cases=dict(quick=3000, thorough=60000), judge_module='Judge.J06', judge_fn='judge_C06'),
-               dict(harness='S01', judge='snaps', cases=dict(quick=1500, thorough=15000))],
+               dict(harness='S01', judge='snaps', cases=dict(quick=1500, thorough=15000), judge_module='Judge.J21', judge_fn='judge_snaps')],
         rule='conflict-rich CNF with certificate generation on (channel) x learned-clause limit default/4/20: 3-SAT near the '
              'threshold over 6..18 and 15..24 variables, 4% over 30..50 variables (there an Unsat answer is justified by its '
              'certificate alone), pigeonhole, parity chains, mixed CNF; 1% of the runs read the certificate slowly (120 ms pauses); '
@@ -203,10 +203,11 @@ PROPS = {
         assumptions=[],
     ),
     'C14': dict(
-        theorem_files=['C14', 'C14s', 'Judges', 'Snap'],
+        theorem_files=['C14', 'C14s', 'C14c', 'Judges', 'Snap', 'TracePB'],
         parts=[dict(harness='C14', judge='C14', cases=dict(quick=6000, thorough=50000), judge_module='Judge.J14', judge_fn='judge_C14'),
                dict(harness='C14opt', judge='C03', cases=dict(quick=3000, thorough=30000)),
-               dict(harness='S14', judge='snaps', cases=dict(quick=3000, thorough=30000))],
+               dict(harness='S14', judge='snaps', cases=dict(quick=3000, thorough=30000), judge_module='Judge.J21', judge_fn='judge_snaps'),
+               dict(harness='T14', judge='tracepb', cases=dict(quick=600, thorough=6000), judge_module='Judge.J24', judge_fn='judge_trace_pb', kernel_cases=12, kernel_maxlen=40000)],
         rule='part 1: problems (CNF, 3-SAT, cardinality, PB, pigeonhole as clauses and as cardinality constraints, binary-rich CNF '
              'with and without PB constraints; 2..9 variables quick, 2..13 thorough) solved with CuttingPlanes=true, half of them '
              'after DetectAtMostOne, a quarter with a learned-constraint limit of 4; every answer is judged against the oracle '
@@ -214,19 +215,23 @@ PROPS = {
              'entailed by the problem; part 2: the C03 optimisation cases (API route) with CuttingPlanes=true; part 3 (S14): '
              'solves with the tracing hooks on: the state handed to cuttingPlanes at up to 4 conflicts per solve meets state_wf3b '
              '(hypothesis of C14_search_sound / C14_search_total) and the call returned what Model/CPSearch.cutting_planes '
-             'computes on it (learned constraint up to the order of its terms, propagated literals, level). Non-trivial = '
+             'computes on it (learned constraint up to the order of its terms, propagated literals, level); part 4 (T14): whole runs of '
+             'the cutting-planes loop replayed on coq/Model/SearchPB.v by coq/Judge/J24.v (every step checked, the successor of each '
+             'conflict computed by the model from cutting_planes_full, observed state and answer demanded, C14c_replay_unsat/sat). Non-trivial = '
              'at least 2 constraints',
         nontrivial=_solve_nontrivial, stats=_verdict_stats,
         assumptions=['termination and absence of panics are observed per run, not proved'],
     ),
     'C15': dict(
         parts=[dict(harness='C15', judge='C15', cases=dict(quick=6000, thorough=50000), judge_module='Judge.J14', judge_fn='judge_C15'),
-               dict(harness='C15solve', judge='solve', cases=dict(quick=3000, thorough=30000))],
+               dict(harness='C15solve', judge='solve', cases=dict(quick=3000, thorough=30000)),
+               dict(harness='P15', judge='amostruct', cases=dict(quick=4000, thorough=40000), judge_module='Judge.J23', judge_fn='judge_amo_struct', kernel_cases=40, kernel_maxlen=1500)],
         rule='binary-rich CNF problems (1..3 groups of 2..5 literals encoded pairwise, 2/3 over negative literals, 1/8 of the pairs '
              'missing, 1/10 repeated, plus binaries in no group, long clauses and sometimes cardinality constraints placed after '
              'the binaries; also random CNF and pigeonhole; 3..9 variables quick, 3..12 thorough); part 1: Problem after '
              'DetectAtMostOne (read back from PBString) has exactly the models of the input, by enumeration; part 2: solving after '
-             'detection gives the oracle verdict and a model of the input. Non-trivial = detection removed at least one clause',
+             'detection gives the oracle verdict and a model of the input; part 3 (P15): the clause list after DetectAtMostOne equals, in '
+             'order, coq/Model/Amo.v detect_amo applied to the clause list before it (coq/Judge/J23.v). Non-trivial = detection removed at least one clause',
         nontrivial=lambda sx, v, meta: v[0] == 'ok' and len(v[2]) > 1 and int(v[2][1]) > 0,
         assumptions=[],
     ),
@@ -245,8 +250,8 @@ PROPS = {
     'C10': dict(
         theorem_files=['C10', 'C06l', 'C01c', 'Judges', 'Snap', 'Trace'],
         parts=[dict(harness='C10', judge='C10m', cases=dict(quick=6000, thorough=60000), judge_module='Judge.JModel', judge_fn='judge_C10_m'),
-               dict(harness='S10', judge='snaps', cases=dict(quick=3000, thorough=30000)),
-               dict(harness='T10', judge='trace', cases=dict(quick=500, thorough=5000))],
+               dict(harness='S10', judge='snaps', cases=dict(quick=3000, thorough=30000), judge_module='Judge.J21', judge_fn='judge_snaps'),
+               dict(harness='T10', judge='trace', cases=dict(quick=500, thorough=5000), judge_module='Judge.J22', judge_fn='judge_trace', kernel_cases=12, kernel_maxlen=40000)],
         rule='base CNF problems (mixed, unit-rich, 3-SAT; 2..9 variables quick, 2..14 thorough) x 1..6 rounds of Assume+Solve; '
              'a round is: empty list, the previous list again, both polarities of a variable, the negation of the previous '
              'round, a repeated literal, or 1..4 literals over distinct variables; non-trivial = at least 2 rounds'
@@ -256,10 +261,11 @@ PROPS = {
         assumptions=['assumed literals are over variables of the problem'],
     ),
     'C01': dict(
-        theorem_files=['C01', 'C01s', 'C01c', 'GoTypes', 'Judges', 'Snap', 'Trace'],
+        theorem_files=['C01', 'C01s', 'C01c', 'C01h', 'GoTypes', 'Judges', 'Snap', 'Trace'],
         parts=[dict(harness='C01', judge='solve_m', cases=dict(quick=10000, thorough=60000), judge_module='Judge.JModel', judge_fn='judge_solve_case_m'),
-               dict(harness='S01', judge='snaps', cases=dict(quick=3000, thorough=30000)),
-               dict(harness='T01', judge='trace', cases=dict(quick=500, thorough=5000))],
+               dict(harness='S01', judge='snaps', cases=dict(quick=3000, thorough=30000), judge_module='Judge.J21', judge_fn='judge_snaps'),
+               dict(harness='T01', judge='trace', cases=dict(quick=500, thorough=5000), judge_module='Judge.J22', judge_fn='judge_trace', kernel_cases=12, kernel_maxlen=40000),
+               dict(harness='P01', judge='parse', cases=dict(quick=9000, thorough=40000), judge_module='Judge.J23', judge_fn='judge_parse', kernel_cases=60, kernel_maxlen=1500)],
         exhaustive=dict(quick=True, thorough=True),
         rule='cases 0..7310 = EVERY ordered list of <=2 clauses of <=3 literals over 2 variables (duplicates, tautologies, '
              'empty and unit clauses included) through ParseSlice / ParseSliceNb(+2 unused variables) / ParseCNF, then random '
@@ -267,21 +273,24 @@ PROPS = {
              'n in [3,14] and [15,30], pigeonhole 2-4, parity chains); configuration rotates over certificate on/off x '
              'learned-clause limit default/4/20 (hook). Non-trivial = at least 2 clauses; distinct = distinct (case, observables) text'
              ' Second part (S01): solves with the search-state tracing hooks on; at up to 4 tracing points per solve the state handed to conflict analysis (trail, levels, reasons, conflict) and its result, and the state when propagation ended without conflict, are judged by coq/Judge/J21.v: the state meets the hypotheses of the theorems about Model/Learn.v / Model/CPSearch.v, the analysis returned what the model computes on that state, no constraint is falsified (nor, for clauses and cardinality constraints, propagating) at a quiet point'
-             ' Third part (T01): WHOLE RUNS of the search loop: tracing at every tracing point (up to 300 per solve, a third of the solves with restarts forced by the hook VerifRestartEvery, learned-clause limit lowered by VerifSetNbMax); coq/Judge/J22.v rebuilds the command list of coq/Model/Search.v from the snapshots (decisions, propagations with their reasons, conflicts, restarts, forgotten clauses), runs the mirrored loop on it -- the successor of each conflict is computed by Model.Learn.conflict_step --, demands the observed state after every group of commands and the observed answer at the end, and replays the whole list with Model.Search.replay (J_trace_unsat / J_trace_sat: the answer is then proved right for this run)',
+             ' Third part (T01): WHOLE RUNS of the search loop: tracing at every tracing point (up to 300 per solve, a third of the solves with restarts forced by the hook VerifRestartEvery, learned-clause limit lowered by VerifSetNbMax); coq/Judge/J22.v rebuilds the command list of coq/Model/Search.v from the snapshots (decisions, propagations with their reasons, conflicts, restarts, forgotten clauses), runs the mirrored loop on it -- the successor of each conflict is computed by Model.Learn.conflict_step --, demands the observed state after every group of commands and the observed answer at the end, and replays the whole list with Model.Search.replay (J_trace_unsat / J_trace_sat: the answer is then proved right for this run)'
+             ' Fourth part (P01): the Problem value built by the front end (NbVars, Status, Units, Model, Clauses in order with their literals in order, weights and degree) equals, field by field, what the mirrored front end of coq/Model/Simplify.v / Model/Solve.v builds from the same arguments (coq/Judge/J23.v); for P02 also the results of GtEq / LtEq / Eq against Model/PBNorm.v',
         nontrivial=_solve_nontrivial, stats=_verdict_stats,
         assumptions=['termination and absence of panics are observed per run (10 s limit per case), not proved'],
     ),
     'C02': dict(
         theorem_files=['C02', 'C02b', 'C02s', 'C02p', 'C01c', 'Snap', 'Trace'],
         parts=[dict(harness='C02', judge='solve_m', cases=dict(quick=8000, thorough=80000), judge_module='Judge.JModel', judge_fn='judge_solve_case_m'),
-               dict(harness='S02', judge='snaps', cases=dict(quick=3000, thorough=30000)),
-               dict(harness='T02', judge='trace', cases=dict(quick=200, thorough=2000))],
+               dict(harness='S02', judge='snaps', cases=dict(quick=3000, thorough=30000), judge_module='Judge.J21', judge_fn='judge_snaps'),
+               dict(harness='T02', judge='trace', cases=dict(quick=200, thorough=2000), judge_module='Judge.J22', judge_fn='judge_trace', kernel_cases=12, kernel_maxlen=40000),
+               dict(harness='P02', judge='parse', cases=dict(quick=5000, thorough=40000), judge_module='Judge.J23', judge_fn='judge_parse', kernel_cases=60, kernel_maxlen=1500)],
         rule='random sets of 1..n+3 cardinality / PB constraints over 1..10 (quick) or 1..16 (thorough) variables built through '
              'the public constructors (AtLeast1 AtMost1 Exactly1 CardConstr, PropClause AtLeast AtMost GtEq LtEq Eq), '
              'coefficients in [-W,W] W in {1,2,4,9} incl. 0, degree from below the minimum to above the maximum of the sum, '
              'through ParseCardConstrs and ParsePBConstrs; non-trivial = at least 2 constraints'
              ' Second part (S02): solves with the search-state tracing hooks on; at up to 4 tracing points per solve the state handed to conflict analysis (trail, levels, reasons, conflict) and its result, and the state when propagation ended without conflict, are judged by coq/Judge/J21.v: the state meets the hypotheses of the theorems about Model/Learn.v / Model/CPSearch.v, the analysis returned what the model computes on that state, no constraint is falsified (nor, for clauses and cardinality constraints, propagating) at a quiet point'
-             ' Third part (T02): WHOLE RUNS of the search loop: tracing at every tracing point (up to 300 per solve, a third of the solves with restarts forced by the hook VerifRestartEvery, learned-clause limit lowered by VerifSetNbMax); coq/Judge/J22.v rebuilds the command list of coq/Model/Search.v from the snapshots (decisions, propagations with their reasons, conflicts, restarts, forgotten clauses), runs the mirrored loop on it -- the successor of each conflict is computed by Model.Learn.conflict_step --, demands the observed state after every group of commands and the observed answer at the end, and replays the whole list with Model.Search.replay (J_trace_unsat / J_trace_sat: the answer is then proved right for this run)',
+             ' Third part (T02): WHOLE RUNS of the search loop: tracing at every tracing point (up to 300 per solve, a third of the solves with restarts forced by the hook VerifRestartEvery, learned-clause limit lowered by VerifSetNbMax); coq/Judge/J22.v rebuilds the command list of coq/Model/Search.v from the snapshots (decisions, propagations with their reasons, conflicts, restarts, forgotten clauses), runs the mirrored loop on it -- the successor of each conflict is computed by Model.Learn.conflict_step --, demands the observed state after every group of commands and the observed answer at the end, and replays the whole list with Model.Search.replay (J_trace_unsat / J_trace_sat: the answer is then proved right for this run)'
+             ' Fourth part (P02): the Problem value built by the front end (NbVars, Status, Units, Model, Clauses in order with their literals in order, weights and degree) equals, field by field, what the mirrored front end of coq/Model/Simplify.v / Model/Solve.v builds from the same arguments (coq/Judge/J23.v); for P02 also the results of GtEq / LtEq / Eq against Model/PBNorm.v',
         nontrivial=_solve_nontrivial, stats=_verdict_stats,
         assumptions=['each variable occurs at most once per constraint (as the property states)',
                      'Go int overflow is not modelled (coefficients are small)'],
